@@ -287,6 +287,69 @@ def rule_dimguard(ctx, py):
     ctx.floor(R, 7)
 
 
+def rule_eq3(ctx, py):
+    """C06.EQ3 -- the dimension guard of the conversions (`u.dim != v.units.dim -> raise`) and the `sys == sys` short cuts compare
+    _UnitsComponentDict objects: their __eq__ must be true only when all three components are equal."""
+    R = "C06.EQ3"
+    f = py.fn("units._UnitsComponentDict.__eq__")
+    other = [p for p in pyfe.params(f) if p != "self"][0]
+    comps = {"space", "time", "quantity"}
+
+    def comp_of(e, who):
+        t = pyfe.src(e).replace('"', "'")
+        for k in comps:
+            if t in ("%s.%s" % (who, k), "%s['%s']" % (who, k), "%s._%s" % (who, k)):
+                return k
+        return None
+    trues = [r for r in ast.walk(f) if isinstance(r, ast.Return) and r.value is not None and
+             not (isinstance(r.value, ast.Constant) and r.value.value in (False, None))]
+    ctx.need(trues, R, "__eq__: no positive return")
+    for r in trues:
+        v = r.value
+        inloop = None
+        p_ = pyfe.parent(r)
+        while p_ is not None and p_ is not f:
+            if isinstance(p_, (ast.For, ast.While)):
+                inloop = p_
+            p_ = pyfe.parent(p_)
+        if isinstance(v, ast.Constant) and v.value is True:
+            # loop form: for k in <all components>: if self[k] != v[k]: return False   ...   return True  (after the loop)
+            loops = [n for n in ast.walk(f) if isinstance(n, ast.For)]
+            okk = inloop is None and len(loops) >= 1
+            why = "`return True` sits inside the component loop: only the first component is compared"
+            if okk:
+                lp = loops[0]
+                k = pyfe.src(lp.target)
+                it = pyfe.src(lp.iter).replace('"', "'")
+                okk = it in ("self.keys()", "['space', 'time', 'quantity']", "('space', 'time', 'quantity')", "self") and any(
+                    isinstance(n, ast.If) and pyfe.src(n.test).replace(" ", "") in (
+                        "self[%s]!=%s[%s]" % (k, other, k), "%s[%s]!=self[%s]" % (other, k, k),
+                        "notself[%s]==%s[%s]" % (k, other, k)) and
+                    any(isinstance(b, ast.Return) and isinstance(b.value, ast.Constant) and b.value.value is False for b in n.body)
+                    for n in lp.body)
+                why = "the component loop does not return False on the first differing component of all three"
+            ctx.check(okk, R, r, f._qual, "return True", "reached only after every component compared equal", why +
+                      ": dimensions (or systems) that differ in another component compare equal, conversions across dimensions "
+                      "stop raising")
+            continue
+        conj = v.values if isinstance(v, ast.BoolOp) and isinstance(v.op, ast.And) else [v]
+        seen = set()
+        okk = inloop is None
+        for c in conj:
+            if isinstance(c, ast.Compare) and len(c.ops) == 1 and isinstance(c.ops[0], ast.Eq):
+                a, b = comp_of(c.left, "self"), comp_of(c.comparators[0], other)
+                if a is None:
+                    a, b = comp_of(c.comparators[0], "self"), comp_of(c.left, other)
+                if a is not None and a == b:
+                    seen.add(a)
+                    continue
+            okk = False
+        ctx.check(okk and seen == comps, R, r, f._qual, pyfe.src(v)[:100].replace("\n", " "), "all three components, each with "
+                  "its own counterpart", "equality does not compare space, time and quantity each with its counterpart "
+                  "(compared: %s)" % sorted(seen))
+    ctx.floor(R, 1)
+
+
 def run(ctx):
     py = ctx.py
     rule_si(ctx, py)
@@ -294,4 +357,5 @@ def run(ctx):
     rule_keys(ctx, py)
     rule_labels(ctx, py, vol, con)
     rule_dimguard(ctx, py)
+    rule_eq3(ctx, py)
     ctx.assume("the 1e-12 composition bound is not measured; it follows from the product-of-ratios form (C06.KEYS)")
